@@ -11,9 +11,10 @@ import Emg3dVerif.Lemmas.Sbp
 Proved: point moment (all positions, incl. the extrapolating outer half cells and the last
 interval), the partition-of-unity of the edge weights of a cell, the one-dimensional tiling
 lemma (the clipped parametric lengths of the cells along a segment sum to one), all
-conversion identities.  NOT proved (covered by the correspondence and by the moment monitor on
-the real code): the composition of the tiling lemma over the coded triple cell loop of
-`_dipole_vector` (`dipole_moment_stmt`).
+conversion identities, and the three-dimensional tiling identity `tiling_3d` (the clipped
+parametric lengths of all cells sum to one).  NOT proved (covered by the correspondence and by the
+moment monitor on the real code): that the coded cell box and guard of `_dipole_vector` select
+exactly the cells with a non-empty intersection (`dipole_moment_stmt`).
 -/
 open Finset
 namespace Src
@@ -144,6 +145,43 @@ theorem segments_tile_1d (x : ℕ → K) (n : ℕ) (a b : K) (hab : a < b)
   have h2 : (x 0 - a)/(b - a) ≤ 0 := by
     apply div_nonpos_of_nonpos_of_nonneg <;> linarith
   rw [min_eq_right h1, max_eq_right h2]
+  simp
+
+/-- **three-dimensional tiling**: if the parameter break points of the cells along a segment are
+monotone in each direction and cover `[0, 1]`, the clipped parametric lengths
+`|[0,1] ∩ [X_i, X_{i+1}] ∩ [Y_j, Y_{j+1}] ∩ [Z_k, Z_{k+1}]|` of all cells sum to one — every
+point of the segment is in exactly one cell (up to end points) -/
+theorem tiling_3d (X Y Z : ℕ → K) (nx ny nz : ℕ)
+    (hX : ∀ i < nx, X i ≤ X (i+1)) (hY : ∀ i < ny, Y i ≤ Y (i+1)) (hZ : ∀ i < nz, Z i ≤ Z (i+1))
+    (hX0 : X 0 ≤ 0) (hX1 : 1 ≤ X nx) (hY0 : Y 0 ≤ 0) (hY1 : 1 ≤ Y ny)
+    (hZ0 : Z 0 ≤ 0) (hZ1 : 1 ≤ Z nz) :
+    ∑ k ∈ range nz, ∑ j ∈ range ny, ∑ i ∈ range nx,
+      max 0 (min (X (i+1)) (min (Y (j+1)) (min (Z (k+1)) 1)) -
+             max (X i) (max (Y j) (max (Z k) 0))) = 1 := by
+  have inner : ∀ (l r : K), 0 ≤ l → r ≤ 1 →
+      ∑ i ∈ range nx, max 0 (min (X (i+1)) r - max (X i) l) = max 0 (r - l) := by
+    intro l r hl hr
+    rw [interval_union X nx l r hX, min_eq_right (le_trans hr hX1), max_eq_right (le_trans hX0 hl)]
+  have innerY : ∀ (l r : K), 0 ≤ l → r ≤ 1 →
+      ∑ j ∈ range ny, max 0 (min (Y (j+1)) r - max (Y j) l) = max 0 (r - l) := by
+    intro l r hl hr
+    rw [interval_union Y ny l r hY, min_eq_right (le_trans hr hY1), max_eq_right (le_trans hY0 hl)]
+  have step1 : ∀ k j, ∑ i ∈ range nx,
+      max 0 (min (X (i+1)) (min (Y (j+1)) (min (Z (k+1)) 1)) - max (X i) (max (Y j) (max (Z k) 0)))
+      = max 0 (min (Y (j+1)) (min (Z (k+1)) 1) - max (Y j) (max (Z k) 0)) := by
+    intro k j
+    apply inner
+    · exact le_trans (le_max_right _ _) (le_max_right _ _)
+    · exact le_trans (min_le_right _ _) (min_le_right _ _)
+  have step2 : ∀ k, ∑ j ∈ range ny,
+      max 0 (min (Y (j+1)) (min (Z (k+1)) 1) - max (Y j) (max (Z k) 0))
+      = max 0 (min (Z (k+1)) 1 - max (Z k) 0) := by
+    intro k
+    apply innerY
+    · exact le_max_right _ _
+    · exact min_le_right _ _
+  simp only [step1, step2]
+  rw [interval_union Z nz 0 1 hZ, min_eq_right hZ1, max_eq_right hZ0]
   simp
 
 /-- the full statement for finite dipoles (not proved here, see the header):
